@@ -34,7 +34,8 @@ POOLS = {
                 'mode', 'tag', 'unit', 'load'],
     'quote': ['a"b', '"q"', 'x"', '"y'],
     'dot': ['a.b', 'v1.2', 'x.y.z', '.d'],
-    'apos': ["it's", "'q'", "o'k", "x'"],
+    # never starting with an apostrophe: the library's AST reads such a leaf as a string literal
+    'apos': ["it's", "q'q'", "o'k", "x'", "d'", "a'b'c"],
 }
 
 
